@@ -61,6 +61,7 @@ Vals ==
     float |-> <<[t |-> "float", v |-> "h"]>>, true |-> <<[t |-> "bool", v |-> "1"]>>,
     false |-> <<[t |-> "bool", v |-> "0"]>>, dt |-> <<[t |-> "dt", v |-> "t1"]>>,
     uri |-> <<[t |-> "uri", u |-> A \o Y]>>, qn |-> <<Ref(NameQN("ex", A, Y))>>,
+    uriamp |-> <<[t |-> "uri", u |-> C \o <<"amp">>]>>,
     qnew |-> <<Ref(NameQN("zz", C, Y))>>,
     lang |-> <<[t |-> "lang", v |-> "s1", lang |-> "en"]>>,
     qndflt |-> <<Ref(NameQN("", C, Y))>>,
@@ -285,6 +286,8 @@ GraphActs ==
     GR("membership", <<>>, << <<"collection", Rf(X)>>, <<"entity", Rf(Y)>> >>, <<>>),
     GR("specialization", <<>>, << <<"specificEntity", Rf(X)>>, <<"generalEntity", Rf(Z)>> >>, <<>>),
     \* an endpoint is missing although a LATER qualified-name argument is present: still no edge
+    \* a URI VALUE with a query string (an ampersand): links in the drawing carry it
+    GR("entity", <<NamePL("ex", <<"w">>)>>, <<>>, << <<NameQN("ex", A, <<"attr">>), [t |-> "uri", u |-> C \o <<"amp">>]>> >>),
     GR("association", <<>>, << <<"activity", Rf(Y)>>, <<"plan", Rf(Z)>> >>, <<>>),
     GR("start", <<>>, << <<"activity", Rf(Y)>>, <<"starter", Rf(X)>> >>, <<>>),
     GR("delegation", <<>>, << <<"responsible", Rf(X)>>, <<"activity", Rf(Y)>> >>, <<>>) }
